@@ -327,3 +327,6 @@ def prepare_patterns(names, sides, pw, level):
     tasks = [(n, s, pw, level) for n in names for s in sides if (n, s, pw, level) not in PATTERNS and T.try_get(n)[0] is not None]
     for task, res in core.pmap(_compute_patterns, tasks):
         PATTERNS[task] = res
+
+
+_compute_patterns.returns_tuple = True
